@@ -1,6 +1,11 @@
 from vlib.runner import Ob
 
-SCALE_PATCH = {"src/dvb_demux.c": [(r"pes_buffer\[ALIGN \(6 \+ 65536\)\]", "pes_buffer[PESCAP_SCALED]")]}
+# reset_frame(): `if (f->rp > f->raw)` compares two NULL pointers when no raw buffer is attached (always, through the public API).  CBMC's pointer check
+# treats that as a fatal failure and reports every later property UNKNOWN; the comparison is rewritten to an integer comparison (same result on every
+# supported platform), recorded as a cut + ub note.
+RF = (r"if \(f->rp > f->raw\)", "if ((uintptr_t) f->rp > (uintptr_t) f->raw)")
+RF_PATCH = {"src/dvb_demux.c": [RF]}
+SCALE_PATCH = {"src/dvb_demux.c": [(r"pes_buffer\[ALIGN \(6 \+ 65536\)\]", "pes_buffer[PESCAP_SCALED]"), RF]}
 
 
 def obligations(tier, seed):
@@ -11,16 +16,17 @@ def obligations(tier, seed):
     # pointer relation on NULL pointers in reset_frame(): `f->rp > f->raw` with both NULL (no raw buffer): standard-level UB that
     # no compiler/sanitizer distinguishes; recorded as ub_note
     ub = [r"reset_frame:pointer relation"]
-    seq_assumes = ["R7: demux = static zero object + real vbi_dvb_demux_reset() (reset_init shows every field later read is set by reset)",
+    seq_assumes = ["reset_frame(): NULL > NULL pointer comparison rewritten to an integer comparison (patch), see ub note",
+                   "R7: demux = static zero object + real vbi_dvb_demux_reset() (reset_init shows every field later read is set by reset)",
                    "R2(e): frame output array re-pointed to an exact-size array of OUTN lines (streams here produce fewer lines)",
                    "R2(e): PES demux: pes_wrap.buffer re-pointed to an exact-size array of 192 bytes (PES packets of the streams are 184 bytes)"]
-    ts_assumes = seq_assumes[:2] + ["scaled unit (TS demux only): dvb_demux.c compiled with pes_buffer[256] instead of [65552]; PES packets of the streams are 184 bytes, "
+    ts_assumes = seq_assumes[:3] + ["scaled unit (TS demux only): dvb_demux.c compiled with pes_buffer[256] instead of [65552]; PES packets of the streams are 184 bytes, "
                                      "any access beyond 256 is a bounds failure (the TS demux addresses dx->pes_buffer directly; symex over the 64 KB array: ~40 s per Teletext unit)"]
     fs = ["--max-field-sensitivity-array-size", "800"]
     uw_seq = {"memcpy.0": 800, "memmove.0": 800, "memmove.1": 800, "memset.0": 300, "extract_data_units.8": 5, "demux_pes_packet.1": 4,
               "demux_pes_packet.3": 12, "demux_pes_packet_frame.1": 3, "demux_ts_packet.0": 4, "demux_ts_packet.9": 16}
-    wrap_q = [dict(CAP=16, SS=24), dict(CAP=16, SS=6)]
-    wrap_t = wrap_q + [dict(CAP=64, SS=96), dict(CAP=48, SS=32), dict(CAP=32, SS=1), dict(CAP=8, SS=40)]
+    wrap_q = [dict(CAP=8, SS=10), dict(CAP=8, SS=3)]
+    wrap_t = [dict(CAP=16, SS=24), dict(CAP=16, SS=6), dict(CAP=12, SS=1)]
     # PES: 2 packets = 368 bytes, cut positions around every structural boundary
     cuts_q = [(0, 100), (0, 47), (1, 184), (2, 231), (3, 3), (4, 330)]
     split_q = [dict(TS=0, SHAPE=s, CUT=c) for (s, c) in cuts_q]
@@ -38,21 +44,31 @@ def obligations(tier, seed):
     du_q = [dict(DUL=16, RAW=0), dict(DUL=3, RAW=0)]
     du_t = du_q + [dict(DUL=d, RAW=0) for d in (2, 4, 8, 24, 48, 64, 138)]
     return [
-        Ob("wrap_around_step", func="h_wrap_step", unwind=100, solver="cadical",
+        Ob("wrap_around_step", func="h_wrap_step", unwind=12, solver="cadical",
            desc="INV-STEP refinement of the real static wrap_around(): symbolic skip (32 bit), lookahead <= CAP, leftover, bp, src_left <= SS, symbolic wrap buffer, "
                 "previous-buffer bytes and source buffer; invariant = the leftover bytes are the stream bytes just before *src.  Decides: no access outside the "
                 "exact-size wrap buffer / source buffer, cursor conservation (no byte skipped or seen twice), invariant re-established, TRUE => window [*dst, *scan_end + "
                 "lookahead) lies in one object, scan_end >= dst, and equals the logical stream at the cursor, skip done; FALSE => all input consumed",
-           encodes=["wrap_around"], bounds="capacity CAP and source size SS on the grid (scaled: 16/24 quick ... 64/96 thorough); one step from any state satisfying the invariant",
+           encodes=["wrap_around"], bounds="capacity CAP = 8 and source size SS = 10 / 3 (scaled; measured: CAP=8 ~100 s, CAP=16 ~800 s under load, both discharged); one step from any state satisfying the invariant",
            assumes=["invariant I (see harness) - established by vbi_dvb_demux_reset (reset_init); that demux_pes_packet keeps lookahead <= sizeof pes_buffer "
                     "(packet_length - 40 <= 65495 < 65552) is an argument by reading, not a solver verdict"],
            outside="capacity 65552 itself (the function is size-generic: no constant of the buffer size occurs in it)",
-           grid=wrap_t, quick_grid=wrap_q, reach=["end", "wrapped", "in_place", "need_more"], timeout=900, mem_gb=4, vin_size=400, **common),
+           grid=wrap_q, reach=["end", "wrapped", "in_place", "need_more"], timeout=900, mem_gb=4, vin_size=400, **common),
+        Ob("wrap_around_step_16", func="h_wrap_step", unwind=26, solver="cadical", tier="thorough",
+           desc="INV-STEP refinement of the real static wrap_around(): symbolic skip (32 bit), lookahead <= CAP, leftover, bp, src_left <= SS, symbolic wrap buffer, "
+                "previous-buffer bytes and source buffer; invariant = the leftover bytes are the stream bytes just before *src.  Decides: no access outside the "
+                "exact-size wrap buffer / source buffer, cursor conservation (no byte skipped or seen twice), invariant re-established, TRUE => window [*dst, *scan_end + "
+                "lookahead) lies in one object, scan_end >= dst, and equals the logical stream at the cursor, skip done; FALSE => all input consumed",
+           encodes=["wrap_around"], bounds="capacity CAP = 16 / 12 and source size SS = 24 / 6 / 1 (scaled; measured: CAP=8 ~100 s, CAP=16 ~800 s under load, both discharged); one step from any state satisfying the invariant",
+           assumes=["invariant I (see harness) - established by vbi_dvb_demux_reset (reset_init); that demux_pes_packet keeps lookahead <= sizeof pes_buffer "
+                    "(packet_length - 40 <= 65495 < 65552) is an argument by reading, not a solver verdict"],
+           outside="capacity 65552 itself (the function is size-generic: no constant of the buffer size occurs in it)",
+           grid=wrap_t, reach=["end", "wrapped", "in_place", "need_more"], timeout=2400, mem_gb=4, vin_size=400, **common),
         Ob("reset_init", func="h_reset_init", unwind=10, unwindset={"memset.0": 300},
            desc="vbi_dvb_demux_reset on an object with dirty control fields establishes the wrap_around invariant for both contexts and the initial frame/TS state "
                 "(INIT |= I; basis of the directly constructed demux objects)",
            encodes=["vbi_dvb_demux_reset"], bounds="none", timeout=120, vin_size=128, **common),
-        Ob("split_equiv_pes", func="h_split_equiv", unwind=50, unwindset=uw_seq, flags=fs, ignore=ub,
+        Ob("split_equiv_pes", func="h_split_equiv", unwind=50, unwindset=uw_seq, flags=fs, patch=RF_PATCH,
            desc="real vbi_dvb_demux_feed (PES): stream of two valid 184 byte VBI PES packets (structure SHAPE: new frame / continuation in field 2 / stuffing in the "
                 "middle / illegal line / unknown+private units and duplicate line; both PTS and all unit payloads symbolic) fed whole vs. cut at CUT (and CUT2): identical "
                 "callback sequence (count, lines, PTS, line contents), identical pending frame and frame state, identical resume position; representation invariant after every call",
@@ -61,52 +77,52 @@ def obligations(tier, seed):
            assumes=seq_assumes, bounds="2 packets (368 bytes); cut positions on the grid (6 quick; 43 positions x 5 shapes + 8 double cuts thorough)",
            outside="unit structure symbolic (frame.sp symbolic: see DESIGN R2; covered for one unit by split_equiv_symunit in thorough); PES packets > 184 bytes",
            grid=split_t, quick_grid=split_q, reach=["end"], timeout=600, mem_gb=3, vin_size=400, **common),
-        Ob("split_equiv_ts", func="h_split_equiv", unwind=50, unwindset=uw_seq, flags=fs, ignore=ub,
-           defines={"SCALED_PES_BUFFER": 1, "PESCAP_SCALED": 256}, patch=SCALE_PATCH,
+        Ob("split_equiv_ts", func="h_split_equiv", unwind=50, unwindset=uw_seq, flags=fs, patch=SCALE_PATCH,
+           defines={"SCALED_PES_BUFFER": 1, "PESCAP_SCALED": 256},
            desc="same for the TS demultiplexer: two 188 byte transport packets (PID 0x123, payload_unit_start, continuity 5,6) carrying the two PES packets; sync search, "
                 "header collection across cuts, payload reassembly into pes_buffer",
            encodes=["vbi_dvb_demux_feed", "demux_ts_packet", "demux_pes_packet_frame", "valid_vbi_pes_packet_header", "extract_data_units"],
            assumes=ts_assumes, bounds="2 TS packets (376 bytes); cuts on the grid", outside="adaptation fields, PID mismatch, continuity errors in the split runs (see garbage_*)",
            grid=tsplit_t, quick_grid=tsplit_q, reach=["end"], timeout=600, mem_gb=3, vin_size=400, **common),
-        Ob("split_equiv_symunit", func="h_split_equiv", unwind=50, unwindset=uw_seq, flags=fs, ignore=ub, tier="thorough", solver="cadical",
+        Ob("split_equiv_symunit", func="h_split_equiv", unwind=50, unwindset=uw_seq, flags=fs, patch=RF_PATCH, tier="thorough", solver="cadical",
            defines={"SHAPE": 5, "OUT_BYTES": 1, "TS": 0},
            desc="as split_equiv_pes with the first data unit of packet 2 fully symbolic (data_unit_id, field parity/line_offset, framing code, payload): continuation, "
                 "new frame, illegal line, unknown unit, stuffing are all in play; output array byte-backed (R2(f))",
            encodes=["vbi_dvb_demux_feed", "demux_pes_packet", "extract_data_units", "line_address"], assumes=seq_assumes,
            bounds="cuts on the grid", grid=[dict(CUT=c) for c in (47, 184, 231, 300)], reach=["end", "frame_delivered", "frame_continued"],
            timeout=900, mem_gb=8, vin_size=400, **common),
-        Ob("cor_equiv", func="h_cor_equiv", unwind=50, unwindset=dict(uw_seq, **{"h_cor_equiv.3": 4}), flags=fs, ignore=ub,
+        Ob("cor_equiv", func="h_cor_equiv", unwind=50, unwindset=dict(uw_seq, **{"h_cor_equiv.3": 4}), flags=fs, patch=RF_PATCH,
            desc="vbi_dvb_demux_cor (callback NULL) on the same stream returns the frames the callback interface delivers (lines, PTS), consumes the whole stream",
            encodes=["vbi_dvb_demux_cor", "demux_pes_packet", "demux_pes_packet_frame"], assumes=seq_assumes, bounds="2 packets, shapes 0..2",
            grid=[dict(TS=0, SHAPE=s) for s in (0, 1, 2, 3, 4)], quick_grid=[dict(TS=0, SHAPE=0)], reach=["end"], timeout=600, mem_gb=3, vin_size=400, **common),
-        Ob("bytewise_equiv", func="h_bytewise_equiv", unwind=50, unwindset=dict(uw_seq, **{"h_bytewise_equiv.1": 380, "demux_pes_packet.3": 6}), flags=fs, ignore=ub,
+        Ob("bytewise_equiv", func="h_bytewise_equiv", unwind=50, unwindset=dict(uw_seq, **{"h_bytewise_equiv.1": 380, "demux_pes_packet.3": 6}), flags=fs, patch=RF_PATCH,
            tier="thorough",
            desc="368 single-byte feeds equal one whole feed (same checks as split_equiv_pes)", encodes=["vbi_dvb_demux_feed", "demux_pes_packet", "wrap_around"],
            assumes=seq_assumes, bounds="2 packets, shapes 0 and 1", grid=[dict(TS=0, SHAPE=0), dict(TS=0, SHAPE=1)], reach=["end"],
            timeout=900, mem_gb=6, vin_size=400, **common),
-        Ob("garbage_feed", func="h_garbage", unwind=50, flags=fs, ignore=ub, solver="cadical",
+        Ob("garbage_feed", func="h_garbage", unwind=50, flags=fs, patch=RF_PATCH, solver="cadical",
            desc="LEN1 (+LEN2) fully symbolic bytes fed from reset to the PES resp. TS demultiplexer, callback result symbolic: all safety properties of dvb_demux.c "
                 "(exact-size source buffers, pes_buffer/ts_buffer, pointer arithmetic, overflow, shift), termination inside the unwind bounds, representation invariant "
                 "after each call, feed returns TRUE unless the callback refused",
            encodes=["vbi_dvb_demux_feed", "demux_pes_packet", "demux_ts_packet", "wrap_around", "valid_vbi_pes_packet_header", "decode_timestamp"],
-           assumes=seq_assumes[:2] + ["PES runs: pes_wrap.buffer re-pointed to 192 bytes >= total number of bytes fed (the buffer never holds more than was fed, whatever "
+           assumes=seq_assumes[:3] + ["PES runs: pes_wrap.buffer re-pointed to 192 bytes >= total number of bytes fed (the buffer never holds more than was fed, whatever "
                                       "packet length the garbage announces); TS runs use the real 65552 byte pes_buffer"],
            bounds="buffer lengths on the grid (<= 100+97 bytes): no complete 184 byte packet fits, so data-unit extraction is covered by data_units_garbage instead",
            grid=garb_t, quick_grid=garb_q, reach=["end"], timeout=900, mem_gb=6, vin_size=400, **common),
-        Ob("data_units_garbage", func="h_data_units", unwind=43, solver="cadical", nafs=True,
+        Ob("data_units_garbage", func="h_data_units", unwind=43, unwindset={"memcpy.0": 1100}, solver="cadical", nafs=True,
            desc="extract_data_units on a fully symbolic DUL byte payload (exact-size object) from a symbolic frame state (sp anywhere in [begin,end], any last line/field/"
                 "unit id/extracted count), frame.raw == NULL as in every state the public API can reach: no access outside payload or output array, sp stays inside, "
                 "success consumes everything, an error leaves *src at the offending unit with *src_left the rest, error codes in the documented range",
            encodes=["extract_data_units", "line_address", "lofp_to_line"], bounds="payload length DUL on the grid (3, 16 quick; up to 138 thorough)",
            outside="frame.raw != NULL (not reachable through the public API: vbi_dvb_demux_reset never sets it; see report: latent p[5] over-read)",
            grid=du_t, quick_grid=du_q, reach=["end", "ok", "error"], timeout=900, mem_gb=6, vin_size=1000, **common),
-        Ob("recovery_units", func="h_recovery", unwind=50, unwindset=uw_seq, flags=fs, ignore=ub, defines={"DAMAGE_UNITS_ONLY": 1, "TS": 0, "LOGN": 4},
+        Ob("recovery_units", func="h_recovery", unwind=50, unwindset=uw_seq, flags=fs, patch=RF_PATCH, defines={"DAMAGE_UNITS_ONLY": 1, "TS": 0, "LOGN": 4},
            desc="damaged packet (valid header, all three data units symbolic except their length bytes) followed by intact packets A, B, C (one Teletext line each, symbolic "
                 "payload/PTS): frame B is delivered exactly (line 7, payload, PTS of B), C is pending with its PTS - whatever the damage",
            encodes=["vbi_dvb_demux_feed", "demux_pes_packet", "demux_pes_packet_frame", "extract_data_units"], assumes=seq_assumes,
            bounds="4 packets of 184 bytes, whole feed", outside="damage that changes data_unit_length bytes or the PES header (recovery_header, thorough)",
            reach=["end"], solver="cadical", timeout=900, mem_gb=6, vin_size=600, **common),
-        Ob("recovery_header", func="h_recovery", unwind=50, unwindset=dict(uw_seq, **{"extract_data_units.8": 71, "log_cb.0": 34}), flags=fs, ignore=ub, tier="thorough",
+        Ob("recovery_header", func="h_recovery", unwind=50, unwindset=dict(uw_seq, **{"extract_data_units.8": 71, "log_cb.0": 34}), flags=fs, patch=RF_PATCH, tier="thorough",
            defines={"TS": 0, "LOGN": 4, "OUTN": 32, "OUT_BYTES": 1}, solver="cadical",
            desc="as recovery_units but everything behind PES_packet_length of the damaged packet is symbolic (flags, PTS, header length, data_identifier, all unit ids/lengths)",
            encodes=["vbi_dvb_demux_feed", "demux_pes_packet", "valid_vbi_pes_packet_header", "extract_data_units"], assumes=seq_assumes,
